@@ -104,7 +104,7 @@ def pSigma : P SigmaForm := do
 
 def refusalName (r : Refusal) : String := (reprStr r).replace "Mellon.Refusal." ""
 
-def clsName : PredClass → String
+def clsName : PredFamily → String
   | .full => "Full" | .landmarks => "Landmarks" | .landmarksCholesky => "LandmarksCholesky"
 
 def outExcept {β : Type} (f : β → String) : Except Refusal β → String
